@@ -563,6 +563,8 @@ func (r *RegisteredDecoys) TrackIfNotExists(d *DecoyRegistration) (bool, error) 
 	defer r.m.Unlock()
 
 	if reg := r.registrationExists(d); reg != nil {
+		// update tracked registration with new information if any
+		reg.regCount++
 		return true, nil
 	}
 
